@@ -40,6 +40,22 @@ CLAIMS.update({
          "scratch write of the stack guard is on the path not taken) - all w, all values. Equality of unchecked and checked behaviour on "
          "fault-free whole programs is validated by running both builds.", "machine-checked proof (Lean 4) of guard templates + two-build differential", "6 C15"),
 })
+CLAIMS.update({
+ 'C09': ("proof", "Proof. For the whole value space (all a, b < 2^n) and every w>=2: the regenerated arith_map/compare_map compute the reference "
+         "operators (incl. division by zero), halt_inversion is negation, the two-sided branch template goes to the true side iff the "
+         "comparison holds, IntToBool normalises to strict 0/1, not/neg are the emitted subtractions, byte access is truncation. Templates "
+         "are tied to the generator by the conformance check; the named boundary grid x three positions x storage classes x w in {2,3,4} "
+         "is additionally executed through real hidc on the Lean VM.", "machine-checked proof (Lean 4) over regenerated tables and templates + boundary-grid execution", "6 C09"),
+ 'C13': ("proof", "Proof. escape_roundtrip: for every byte string and both quote characters the assembler reads back exactly the bytes that "
+         "_escape_bytes (transcribed from the source by py2lean on every run and re-executed against Python on its whole domain) escaped; "
+         "the escaped text is printable ASCII. Data sections of whole programs (strings, chars, const int/byte/bool/string arrays, all "
+         "lengths) are validated through real hidc, the Lean assembler and VM.", "machine-checked proof (Lean 4) over a transcribed function + data-section execution", "6 C13"),
+ 'C14': ("proof", "Proof of the conditional theorem, known finding for the unconditional one. fold_agrees_partial: for every constant "
+         "expression whose exact evaluation stays inside the signed word range, folding (model evalZ, tied to the real typechecker by a "
+         "correspondence suite) equals run-time evaluation, for every word size; compile-time division errors only where the run-time "
+         "faults. The unconditional statement is proved FALSE (D6, (32767+1)/2) and reported as KNOWN-FINDING; twin programs search for "
+         "any other mechanism.", "machine-checked proof (Lean 4) + twin-program search with known-finding classifier", "6 C14"),
+})
 PENDING = {}
 def main():
     props = [json.loads(l) for l in open(os.path.join(VERIF, 'properties.jsonl'))]
